@@ -20,7 +20,7 @@ RULE = ('case = one history (sequence of encrypt/protect operations in one proce
         'distinct = distinct history descriptors; the evidence also counts distinct secret values observed')
 ASSUMPTIONS = ['unpredictability of os.urandom / OpenSSL RNG is not decidable by monitoring: freshness, size and provenance are observed',
                'ECDH ephemeral keys and RSA padding come from OpenSSL and are visible only through outputs']
-MIN_COUNTERS = {'quick': {'operations': 200, 'session_keys_checked': 150, 'prefixes_checked': 150, 'salts_checked': 40, 'ivs_checked': 15, 'ephemerals_checked': 60, 'urandom_calls_seen': 300, 'reprotect_operations': 5},
+MIN_COUNTERS = {'quick': {'operations': 180, 'session_keys_checked': 120, 'prefixes_checked': 120, 'salts_checked': 40, 'ivs_checked': 15, 'ephemerals_checked': 60, 'urandom_calls_seen': 300, 'reprotect_operations': 5},
                 'thorough': {'operations': 3000}}
 BUDGET = {'quick': (240, 800), 'thorough': (1800, 3600)}
 TECHNIQUE = 'runtime monitoring: history monitor with interposed os.urandom (recording proxy) + reference extraction of secrets from outputs; freshness/size/provenance invariants'
@@ -47,7 +47,9 @@ def cases(tier, seed):
             ops.append(op)
             if r.random() < 0.35:
                 ops.append(dict(op))      # exact repeat
-        cs.append({'history': h, 'ops': ops[:n_ops + 4]})
+        # every history ends with a protect / protect-again pair on one key with the same parameters (change-passphrase flow)
+        tail = {'op': 'protect', 'key': 'ed25519_3', 'pw': h % 2, 'cipher': 'AES256', 'hash': 'SHA256'}
+        cs.append({'history': h, 'ops': ops[:n_ops + 4] + [tail, dict(tail)]})
     return cs
 
 
